@@ -1,6 +1,7 @@
 package chainx
 
 import (
+	"errors"
 	"fmt"
 	"sync"
 	"sync/atomic"
@@ -31,6 +32,10 @@ type ProbeStore struct {
 	mu     sync.Mutex
 	found  []string
 	probes atomic.Int64
+
+	fdb         *FaultDB
+	failFlush   atomic.Int64
+	flushFailed atomic.Int64
 }
 
 func (p *ProbeStore) SetManager(cm *chain.Manager) { p.cm.Store(cm) }
@@ -146,13 +151,58 @@ func (p *ProbeStore) RevertBlock(s consensus.State, cru consensus.RevertUpdate) 
 }
 
 // NewProbedNode is MustNode with the manager running over a ProbeStore.
+// FaultDB wraps a chain.DB; while armed, Flush returns an error and leaves the batch pending (what a
+// wrapper around MemDB, or a disk that is momentarily full, does).
+type FaultDB struct {
+	chain.DB
+	fail atomic.Bool
+}
+
+// Flush implements chain.DB.
+func (f *FaultDB) Flush() error {
+	if f.fail.Load() {
+		return errors.New("chainx: injected flush failure")
+	}
+	return f.DB.Flush()
+}
+
+// FailNextFlush makes the next Store.Flush that has something to write fail once, at the
+// database (the store's periodic flushes inside ApplyBlock/RevertBlock are not affected: those
+// panic by design).
+func (p *ProbeStore) FailNextFlush() { p.failFlush.Store(1) }
+
+// DisarmFlush withdraws a pending FailNextFlush and reports whether a flush has failed since the
+// last call.
+func (p *ProbeStore) DisarmFlush() (failed bool) {
+	p.failFlush.Store(0)
+	return p.flushFailed.Swap(0) > 0
+}
+
+// Flush implements chain.Store.
+func (p *ProbeStore) Flush() error {
+	p.hit("Flush")
+	if p.fdb != nil && p.failFlush.CompareAndSwap(1, 0) {
+		p.fdb.fail.Store(true)
+		err := p.DBStore.Flush()
+		p.fdb.fail.Store(false)
+		if err != nil {
+			p.flushFailed.Add(1)
+		} else {
+			p.failFlush.Store(1) // nothing was pending; the failure is still to come
+		}
+		return err
+	}
+	return p.DBStore.Flush()
+}
+
 func (net *Net) NewProbedNode() *Node {
 	db := chain.NewMemDB()
-	store, tip, err := chain.NewDBStore(db, net.N, net.Genesis, nil)
+	fdb := &FaultDB{DB: db}
+	store, tip, err := chain.NewDBStore(fdb, net.N, net.Genesis, nil)
 	if err != nil {
 		panic(err)
 	}
-	ps := &ProbeStore{DBStore: store}
+	ps := &ProbeStore{DBStore: store, fdb: fdb}
 	nd := &Node{Net: net, DB: db, Store: store, Probe: ps}
 	nd.CM = chain.NewManager(ps, tip)
 	ps.SetManager(nd.CM)
